@@ -170,6 +170,10 @@ fn main() {
     let t0 = Instant::now();
     let mut rep = Report::new();
     f(&ctx, &mut rep);
+    if cfg!(feature = "nohooks") {
+        rep.note("hooks_available", false);
+        rep.assume("DEGRADED RUN: the cfg(coap_lite_verif) hooks did not compile against this tree, so the checks were built without them: cache snapshots are empty (C11's buffer-growth clause and C20's visible-bytes clause are not observed, block-handler searches enumerate to a fixed depth without state merging) and the Observe comparison covers public state only, the private counters being those of the reference model");
+    }
     let wall = t0.elapsed().as_secs_f64();
     let j = Json::obj()
         .set("property_id", id.as_str())
